@@ -38,9 +38,15 @@ impl Src {
 
 impl Read for Src {
     fn read(&mut self, buf: &mut [u8]) -> io::Result<usize> {
+        if let Some(kind) = crate::io::on_call("src.read") {
+            return Err(crate::io::io_error(&kind));
+        }
         let len = self.data.len() as u64;
         let start = self.pos.min(len) as usize;
-        let n = buf.len().min(self.data.len() - start);
+        let mut n = buf.len().min(self.data.len() - start);
+        if n > 0 {
+            n = crate::io::plan(true, n)?;
+        }
         buf[..n].copy_from_slice(&self.data[start..start + n]);
         let mut st = self.stats.borrow_mut();
         st.reads += 1;
@@ -56,6 +62,9 @@ impl Read for Src {
 
 impl Seek for Src {
     fn seek(&mut self, pos: SeekFrom) -> io::Result<u64> {
+        if let Some(kind) = crate::io::on_call("src.seek") {
+            return Err(crate::io::io_error(&kind));
+        }
         let len = self.data.len() as i64;
         let new = match pos {
             SeekFrom::Start(o) => {
